@@ -17,6 +17,11 @@
 //!   H                                   drop one handle         A   abort the task
 //!   CO / CE                             the pending connect succeeds / fails
 //!   F:<tx>:<g|e|b>                      a whole reply frame (genuine / exception / wrong function)
+//!   S:<id>:b:<timeout_ns>:<f|c|x>       a BIG request: read 125 holding registers from address <id> (reply frame: 259 bytes); completes
+//!                                       with Ok only if every value is the one FL sends, otherwise with the class WrongData
+//!   FL:<tx>:<g|e|b>                     a whole LARGE reply frame (genuine: 125 registers, 259 bytes; exception; wrong function, 259 bytes)
+//!   FS:<tx>:<a>                         a well-formed reply frame with <a> registers (9 + 2a bytes) that is NOT pushed by itself: it is
+//!                                       delivered at the front of the SAME read chunk as the next frame step (stale frame + reply in one read)
 //!   P:<tx>:<g|e|b>  Q                   the frame without its last two bytes / those two bytes
 //!   G  Z  R                             a header the parser rejects / EOF / read error
 //!   B:<hex>                             raw bytes, delivered as one read chunk (byte-level replies: C04/C05/C11 end to end)
@@ -321,6 +326,31 @@ fn frame_bytes(tx: u16, kind: &str, rtu: bool) -> Vec<u8> {
     v
 }
 
+fn big_value(j: usize) -> u16 {
+    (j as u16).wrapping_mul(257).wrapping_add(1)
+}
+
+/// MBAP reply frames of chosen size: `regs` registers (function 3), or an exception, or a frame of the same size with function 4
+fn sized_frame(tx: u16, kind: &str, regs: usize) -> Vec<u8> {
+    let mut pdu: Vec<u8> = match kind {
+        "e" => vec![0x83, 0x02],
+        "g" => vec![0x03, (2 * regs) as u8],
+        _ => vec![0x04, (2 * regs) as u8],
+    };
+    if kind != "e" {
+        for j in 0..regs {
+            pdu.extend_from_slice(&big_value(j).to_be_bytes());
+        }
+    }
+    let mut v = Vec::new();
+    v.extend_from_slice(&tx.to_be_bytes());
+    v.extend_from_slice(&[0, 0]);
+    v.extend_from_slice(&((pdu.len() as u16 + 1).to_be_bytes()));
+    v.push(1);
+    v.extend_from_slice(&pdu);
+    v
+}
+
 async fn settle() {
     for _ in 0..80 {
         tokio::task::yield_now().await;
@@ -361,6 +391,8 @@ async fn run_case(line: &str, initial: DecodeLevel) -> String {
     let jh = tokio::spawn(channel_task(sess, ctl.clone(), retry, gate_rx));
     settle().await;
     let mut tail: Option<Vec<u8>> = None;
+    // stale frames (FS) waiting to be delivered in the same read chunk as the next large frame (FL)
+    let mut carry: Vec<u8> = Vec::new();
 
     for (step_index, step) in script.split_whitespace().enumerate() {
         ctl.lock().unwrap().step = step_index;
@@ -395,6 +427,52 @@ async fn run_case(line: &str, initial: DecodeLevel) -> String {
                         };
                         complete(&ctl2, id, &text);
                     });
+                }
+            }
+            "S" if p[2] == "b" => {
+                // a big read: 125 holding registers; Ok only with exactly the values of an FL frame
+                let id: u32 = p[1].parse().unwrap();
+                let param = RequestParam::new(UnitId::new(1), dur(p[3].parse().unwrap()));
+                fn big_class(r: Result<Vec<rodbus::Indexed<u16>>, RequestError>, id: u16) -> &'static str {
+                    match r {
+                        Ok(v) => {
+                            if v.len() == 125 && v.iter().enumerate().all(|(j, x)| x.index == id.wrapping_add(j as u16) && x.value == big_value(j)) {
+                                "Ok"
+                            } else {
+                                "WrongData"
+                            }
+                        }
+                        Err(e) => class::<()>(&Err(e)),
+                    }
+                }
+                if let (Some(ch), Ok(range)) = (handles.last().cloned(), AddressRange::try_from(id as u16, 125)) {
+                    let ctl2 = ctl.clone();
+                    match p[4] {
+                        "f" => {
+                            tokio::spawn(async move {
+                                let c = big_class(ch.read_holding_registers(param, range).await, id as u16);
+                                complete(&ctl2, id, c);
+                            });
+                        }
+                        "c" => {
+                            #[allow(deprecated)]
+                            tokio::spawn(async move {
+                                let mut cs = CallbackSession::new(ch, param);
+                                cs.read_holding_registers(range, move |r| {
+                                    let c = big_class(r.map(|it| it.collect::<Vec<_>>()), id as u16);
+                                    complete(&ctl2, id, c)
+                                })
+                                .await;
+                            });
+                        }
+                        _ => {
+                            let mut f = FfiChannel::new(ch);
+                            let _ = f.read_holding_registers(param, range, move |r| {
+                                let c = big_class(r.map(|it| it.collect::<Vec<_>>()), id as u16);
+                                complete(&ctl2, id, c)
+                            });
+                        }
+                    }
                 }
             }
             "S" => {
@@ -478,7 +556,7 @@ async fn run_case(line: &str, initial: DecodeLevel) -> String {
                     let _ = gate_tx.send(p[0] == "CO");
                 }
             }
-            "F" | "P" | "Q" | "G" | "Z" | "R" | "B" => {
+            "F" | "P" | "Q" | "G" | "Z" | "R" | "B" | "FL" | "FS" => {
                 let (wire, writing) = {
                     let c = ctl.lock().unwrap();
                     (c.wire.clone(), c.writing)
@@ -486,6 +564,18 @@ async fn run_case(line: &str, initial: DecodeLevel) -> String {
                 if let (Some(w), false) = (wire, writing) {
                     match p[0] {
                         "B" => w.push(&crate::util::unhex(p[1])),
+                        "FS" => {
+                            if tail.is_none() && !rtu {
+                                carry.extend_from_slice(&sized_frame(p[1].parse().unwrap(), "g", p[2].parse().unwrap()));
+                            }
+                        }
+                        "FL" => {
+                            if tail.is_none() && !rtu {
+                                let mut chunk = std::mem::take(&mut carry);
+                                chunk.extend_from_slice(&sized_frame(p[1].parse().unwrap(), p[2], 125));
+                                w.push(&chunk)
+                            }
+                        }
                         "F" => {
                             if tail.is_none() {
                                 w.push(&frame_bytes(p[1].parse().unwrap(), p[2], rtu))
@@ -564,6 +654,7 @@ async fn run_case(line: &str, initial: DecodeLevel) -> String {
         // the first part of a frame dies with its connection
         if ctl.lock().unwrap().wire.is_none() {
             tail = None;
+            carry.clear();
         }
     }
     let done = jh.is_finished();
